@@ -57,18 +57,30 @@ fn total_tree(rng: &mut Rng, case: u64, ev: &mut Ev) -> Option<(AffTree<2>, Vec<
     let n = 1 + rng.below(3);
     let mut hist = Vec::new();
     let mut out_dim = 1 + rng.below(3);
+    // 6 %: the whole construction is translated so that its regions lie 3e6 .. 8e6 away from the origin
+    let far = if rng.chance(0.06) { Some(gen::far_shift(rng, n)) } else { None };
+    if let Some(d) = &far {
+        hist.push(format!("translated by {:?}", d));
+        ev.inc("trees_translated_far_from_the_origin");
+    }
     let mut t: AffTree<2> = if rng.chance(0.5) {
         let mut cfg = TreeCfg::basic(2, n, out_dim, rg);
         cfg.max_depth = 1 + rng.below(if rng.big { 6 } else { 4 });
         cfg.p_contra = 0.5;
         cfg.p_stop = 0.15;
-        let sp = gen::spec(rng, &cfg);
+        let mut sp = gen::spec(rng, &cfg);
         hist.push(format!("random total tree depth<={} with planted contradictions ({})", cfg.max_depth, rg.name()));
+        if let Some(d) = &far {
+            sp.translate(d);
+        }
         let scr = rng.chance(0.4);
         gen::build::<2>(&sp, rng, scr)
     } else {
-        let a = gen::aff(rng, out_dim, n, rg);
+        let mut a = gen::aff(rng, out_dim, n, rg);
         hist.push(format!("from_aff ({})", rg.name()));
+        if let Some(d) = &far {
+            a.shift_function(d);
+        }
         AffTree::<2>::from_aff(a.to_lib())
     };
     let steps = 1 + rng.below(if rng.big { 6 } else { 4 });
@@ -141,14 +153,16 @@ fn run_tree(case: u64, rng: &mut Rng, ev: &mut Ev) {
     if let Err(e) = s1.wf_tree() {
         fail!("c06:malformed", e);
     }
-    if affinitree::verif::real_errors() > 0 {
-        ev.skip("the LP backend itself reported an error during the run: less pruning is the permitted effect (C11)");
-        return;
-    }
+    // Degraded mode: the backend reported an error, or the library itself discarded an LP answer because
+    // the returned point failed its own 1e-8 containment test (PerformanceCounter.lps_error; happens for
+    // regions 1e7 and more away from the origin). That is C11's territory - "the only permitted effect is
+    // less pruning" - so effectiveness and idempotence are not asserted for such a run; the function
+    // comparison below still is.
+    let mut degraded = affinitree::verif::real_errors() > 0 || c1.lps_error > 0;
     // effective: no surviving non-root node whose path is empty by more than the tolerance
     let mut cached_before = 0;
     for (i, _) in &s1.nodes {
-        if *i == s1.root {
+        if *i == s1.root || degraded {
             continue;
         }
         let sys = match s1.path_sys(*i) {
@@ -167,7 +181,7 @@ fn run_tree(case: u64, rng: &mut Rng, ev: &mut Ev) {
     }
     // no single-child decision below the root
     for (i, n) in &s1.nodes {
-        if *i != s1.root && n.has_children() && n.n_children() == 1 {
+        if !degraded && *i != s1.root && n.has_children() && n.n_children() == 1 {
             // on a total tree the other branch was removed as infeasible; unless the decision's own
             // region is thin (both branches may then be judged infeasible and one is kept so that the
             // node stays a decision) it must have been replaced by its remaining branch
@@ -186,15 +200,16 @@ fn run_tree(case: u64, rng: &mut Rng, ev: &mut Ev) {
         Err(p) => fail!("c06:second-run:panic", p),
     };
     let s2 = snap(&e2);
-    if affinitree::verif::real_errors() > 0 {
-        ev.skip("the LP backend itself reported an error during the run: less pruning is the permitted effect (C11)");
-        return;
-    }
-    if let Some(d) = structure_eq(&s1, &s2) {
-        fail!("c06:not-idempotent", format!("second run changed the tree: {}", d));
-    }
-    if c2.lps_infeasible != 0 {
-        fail!("c06:second-run-found-infeasible", format!("second run still found {} infeasible paths", c2.lps_infeasible));
+    degraded |= affinitree::verif::real_errors() > 0 || c2.lps_error > 0;
+    if degraded {
+        ev.inc("runs_in_degraded_mode_lp_answer_discarded_or_backend_error");
+    } else {
+        if let Some(d) = structure_eq(&s1, &s2) {
+            fail!("c06:not-idempotent", format!("second run changed the tree: {}", d));
+        }
+        if c2.lps_infeasible != 0 {
+            fail!("c06:second-run-found-infeasible", format!("second run still found {} infeasible paths", c2.lps_infeasible));
+        }
     }
     // the function is preserved as well (C03's oracle, cheap version)
     let pts = gen::probes(rng, &[&before], before.in_dim, 20);
